@@ -6,7 +6,7 @@ open Ww.Model.Sched
 def pidOf : String → Option Nat | "A" => some 0 | "B" => some 1 | "C" => some 2 | "D" => some 3 | _ => none
 def kindOf : String → Option Kind
   | "refresh" => some .refresh | "proxy" => some .proxy | "info" => some .info | "logoutlocal" => some .logoutLocal
-  | "logout" => some .logout | "frontchannel" => some .frontchannel | _ => none
+  | "logout" => some .logout | "frontchannel" => some .frontchannel | "relogin" => some .relogin | _ => none
 
 def splitColon (s : String) : String × String :=
   match s.splitOn ":" with
@@ -28,6 +28,7 @@ def handleSched (l : Line) : List Verdict :=
     let uptokens ← l.strs? "uptokens"
     let lockafter ← l.bool? "lockafter"
     let followauth ← l.bool? "followauth"
+    let newauth := (l.bool? "newauth").getD false
     let infostatus ← l.nat? "infostatus"
     let maxlife ← l.int? "maxlife"
     let pk ← procs.mapM fun s => do let (a, b) := splitColon s; pure (← pidOf a, ← kindOf b)
@@ -46,7 +47,12 @@ def handleSched (l : Line) : List Verdict :=
       let ds := ds.take 3
       let stOf := fun (pidS : String) => (statuses.find? (·.startsWith (pidS ++ "="))).map fun s => (s.drop 2).toString
       ds ++ cmp "session exists at the end" exists_ sEnd.sess.isSome ++
-        (match sEnd.sess with | some v => cmp "stored access token" atn s!"at{v.gen}" ++ cmp "stored refresh token" rtn s!"rt{v.gen}" | none => []) ++
+        (match sEnd.sess with
+          | some v => if v.owner = 0 then cmp "stored access token" atn s!"at{v.gen}" ++ cmp "stored refresh token" rtn s!"rt{v.gen}"
+                      else cmp "stored value readable with the old cookie" atn "undecryptable"
+          | none => []) ++
+        cmp "old cookie still authenticated" followauth (mine sEnd.sess).isSome ++
+        cmp "new login's cookie authenticated" newauth (match sEnd.sess with | some v => v.owner != 0 | none => false) ++
         cmp "presented refresh tokens" (presented.map fun s => (s.splitOn "/").headD "") (sEnd.presented.map fun g => s!"rt{g}") ++
         cmp "lock left" lockafter sEnd.lock.isSome ++
         (pk.foldl (fun acc (p, _) =>
@@ -61,7 +67,7 @@ def handleSched (l : Line) : List Verdict :=
     let dup := names.length != names.eraseDups.length
     let genOf := fun (s : String) => (s.drop 2).toString
     let viol : List (String × String) :=
-      (if logoutOk && exists_ then [("C05.recreated_after_del", s!"a logout answered success but the session entry exists at the end (ttl {ttl})")] else []) ++
+      (if logoutOk && exists_ && (atn != "undecryptable" || !(procs.any fun pr => (splitColon pr).2 == "relogin")) then [("C05.recreated_after_del", s!"a logout answered success but the session's entry exists at the end (ttl {ttl})")] else []) ++
       (if logoutOk && followauth then [("C05.authenticated_after_logout", "the old cookie is authenticated after a successful logout")] else []) ++
       (if !crashed && dup then [("C07.token_presented_twice." ++ store, s!"presented {presented}")] else []) ++
       (if !crashed && maxinflight > 1 then [("C07.concurrent_grants." ++ store, s!"{maxinflight} refresh grants in flight at once")] else []) ++
